@@ -124,6 +124,48 @@ func (e *encoder) msg(raw *interfaces.ConsensusRawMessage) string {
 	return "?"
 }
 
+// canonical: are the signed parts that later travel inside proofs (block references of PREPREPARE /
+// PREPARE / COMMIT, the whole VIEW_CHANGE content, the proposal inside a NEW_VIEW) exactly the bytes
+// the builders produce from the field values?  Written independently of the repository's own check.
+func (e *encoder) canonical(raw *interfaces.ConsensusRawMessage) bool {
+	refOK := func(r *protocol.BlockRef) bool {
+		b := (&protocol.BlockRefBuilder{MessageType: r.MessageType(), InstanceId: r.InstanceId(), BlockHeight: r.BlockHeight(), View: r.View(), BlockHash: r.BlockHash()}).Build()
+		return string(b.Raw()) == string(r.Raw())
+	}
+	sigB := func(s *protocol.SenderSignature) *protocol.SenderSignatureBuilder {
+		return &protocol.SenderSignatureBuilder{MemberId: s.MemberId(), Signature: s.Signature()}
+	}
+	refB := func(r *protocol.BlockRef) *protocol.BlockRefBuilder {
+		return &protocol.BlockRefBuilder{MessageType: r.MessageType(), InstanceId: r.InstanceId(), BlockHeight: r.BlockHeight(), View: r.View(), BlockHash: r.BlockHash()}
+	}
+	switch m := interfaces.ToConsensusMessage(raw).(type) {
+	case *interfaces.PreprepareMessage:
+		return refOK(m.Content().SignedHeader())
+	case *interfaces.PrepareMessage:
+		return refOK(m.Content().SignedHeader())
+	case *interfaces.CommitMessage:
+		return refOK(m.Content().SignedHeader())
+	case *interfaces.NewViewMessage:
+		return refOK(m.Content().Message().SignedHeader())
+	case *interfaces.ViewChangeMessage:
+		h := m.Content().SignedHeader()
+		var pb *protocol.PreparedProofBuilder
+		if p := h.PreparedProof(); p != nil && len(p.Raw()) > 0 {
+			pb = &protocol.PreparedProofBuilder{PreprepareBlockRef: refB(p.PreprepareBlockRef()), PreprepareSender: sigB(p.PreprepareSender()), PrepareBlockRef: refB(p.PrepareBlockRef())}
+			it := p.PrepareSendersIterator()
+			for it.HasNext() {
+				pb.PrepareSenders = append(pb.PrepareSenders, sigB(it.NextPrepareSenders()))
+			}
+		}
+		b := (&protocol.ViewChangeMessageContentBuilder{
+			SignedHeader: &protocol.ViewChangeHeaderBuilder{MessageType: h.MessageType(), InstanceId: h.InstanceId(), BlockHeight: h.BlockHeight(), View: h.View(), PreparedProof: pb},
+			Sender:       sigB(m.Content().Sender()),
+		}).Build()
+		return string(b.Raw()) == string(m.Content().Raw())
+	}
+	return true
+}
+
 func (e *encoder) ids(ids [][]byte) string {
 	ss := make([]string, len(ids))
 	for i, id := range ids {
